@@ -113,14 +113,10 @@ def linesOk (L : Lib) (ns : List Name) (ts : List Ty) : List (List Value) → Li
   | r :: rs, l :: ls => lineOk L ns ts r l ∧ linesOk L ns ts rs ls
   | _, _ => False
 
-def concat : List (List Nat) → List Nat
-  | [] => []
-  | l :: ls => l ++ concat ls
-
 /-- **the whole `-o json` output**: `SetSchema` then one `Write` per row -/
 theorem json_output (L : Lib) (hL : LibOK L) (ns : List Name) (ts : List Ty) :
     ∀ rows : List (List Value), rows.all (rowFits (withoutQualifiers ns) ts) = true →
-      ∃ lines, jsonOutput L ns ts rows = some (concat lines) ∧ linesOk L (withoutQualifiers ns) ts rows lines
+      ∃ lines, jsonOutput L ns ts rows = some (concatLines lines) ∧ linesOk L (withoutQualifiers ns) ts rows lines
   | [], _ => ⟨[], rfl, trivial⟩
   | r :: rs, h => by
     simp only [List.all_cons, Bool.and_eq_true] at h
@@ -128,9 +124,18 @@ theorem json_output (L : Lib) (hL : LibOK L) (ns : List Name) (ts : List Ty) :
     obtain ⟨ls, hls, hok⟩ := json_output L hL ns ts rs h.2
     refine ⟨bs :: ls, ?_, ⟨⟨j, hd, hm⟩, json_line_framing L hL _ ts r bs h.1 hb, ?_⟩, hok⟩
     · simp only [jsonOutput] at hls ⊢
-      simp [jsonLines, hb, hls, concat]
+      simp [jsonLines, hb, hls, concatLines]
     · intro hn ht hv
       exact jsonLine_utf8 L _ ts r bs h.1 hn ht hv hb
+
+/-- **lines**: since every line is LF-free text followed by one LF, cutting the output of a whole result at
+    the line feeds gives back exactly the lines (this is how the judge, and any JSON-lines reader, finds them) -/
+theorem json_output_lines (lines : List (List Nat))
+    (h : ∀ l ∈ lines, ∃ b, l = b ++ [10] ∧ ∀ x ∈ b, 32 ≤ x) :
+    Json.splitLines (concatLines lines) [] = lines :=
+  splitLines_concat lines (fun l hl => by
+    obtain ⟨b, e, hb⟩ := h l hl
+    exact ⟨b, e, fun x hx => by have := hb x hx; omega⟩)
 
 /-! ## CSV -/
 
@@ -169,7 +174,7 @@ def Statement
     (jsonOut csvOut : Lib → List Name → List Ty → List (List Value) → Option (List Nat)) : Prop :=
   ∀ L, LibOK L → ∀ (ns : List Name) (ts : List Ty) (rows : List (List Value)),
     rows.all (rowFits (withoutQualifiers ns) ts) = true →
-      (∃ lines, jsonOut L ns ts rows = some (concat lines) ∧ linesOk L (withoutQualifiers ns) ts rows lines) ∧
+      (∃ lines, jsonOut L ns ts rows = some (concatLines lines) ∧ linesOk L (withoutQualifiers ns) ts rows lines) ∧
       (ns ≠ [] → ns.length = ts.length →
         ∃ bytes cellss, csvOut L ns ts rows = some bytes ∧
           Csv.decode bytes = some ((withoutQualifiers ns).map nameBytes :: cellss) ∧ csvRowsOk rows cellss = true)
@@ -206,6 +211,10 @@ theorem raw_float_refuted :
     (Json.decode (Raw.jsonLineFloat ⟨fun _ => [78, 97, 78], fun _ => [], fun _ _ => [], fun _ => []⟩ [102] 0x7FF8000000000001)).isNone = true ∧
     (Json.decode (Raw.jsonLineFloat ⟨fun _ => [43, 73, 110, 102], fun _ => [], fun _ _ => [], fun _ => []⟩ [102] 0x7FF0000000000000)).isNone = true := by
   decide
+
+/-- `FormatCSVValue` before the repair panicked on a well-typed list cell -/
+theorem raw_csv_refuted : ∃ (τ : Ty) (v : Value), fits τ v = true ∧ ∀ L : Lib, Raw.csvCell L v = none :=
+  ⟨.list .int, .list [.int 1], by decide, fun _ => rfl⟩
 
 /-! ## Non-vacuity -/
 section examples
